@@ -88,3 +88,15 @@ func VerifC19DrainPrefetch(c *Cache) (n, scoped int) {
 func VerifC19DenialLens(c *Cache) (cuts, proofs int) {
 	return c.store.NXDomainCutLen(), c.store.DenialProofLen()
 }
+
+// VerifC19Forge files the entry currently stored for (q, cd, from) under the
+// key of (q, cd, to) as well — what a 64-bit key collision between the two
+// preimages would look like to the hit path.  Test wiring only.
+func VerifC19Forge(c *Cache, q dns.Question, cd bool, from, to netip.Prefix) bool {
+	e, ok := c.store.LookupByKey(CacheKey{Question: q, CD: cd, Scope: from}.Hash())
+	if !ok {
+		return false
+	}
+	c.positive.Set(CacheKey{Question: q, CD: cd, Scope: to}.Hash(), e)
+	return true
+}
